@@ -206,7 +206,16 @@ def r4(ctx, L, lh):
     ok = False
     detail = ""
     if len(upd) == 1 and upd[0]["k"] == "assignop" and upd[0]["op"].startswith("Add"):
-        N = e1.Norm(c)
+        env = {}
+        for s_ in L.batch_body:
+            if s_.get("k") == "let" and s_["pat"].get("k") == "bind" and s_["init"] is not None and (c.types[s_["pat"]["t"]] or "") in ("f32", "usize"):
+                try:
+                    Ne = e1.Norm(c, env)
+                    Ne.reduce_hook = hook
+                    env[s_["pat"]["hid"]] = Ne.norm(s_["init"])
+                except ValueError:
+                    pass
+        N = e1.Norm(c, env)
         N.reduce_hook = hook
         try:
             v = N.norm(upd[0]["r"])
